@@ -412,3 +412,144 @@ Proof.
   split; [exact src_inlay_hint_record_field_eq|]. split; [exact src_inlay_hint_class_eq|].
   split; [exact src_inlay_hint_exec_eq|exact kinded_run_ops].
 Qed.
+
+(** ================================================================================================================
+    handlers/goto_definition.rs, handlers/references.rs, handlers/hover.rs (exec, extract_symbol_signature)
+    ================================================================================================================ *)
+Lemma sv_entry_of : forall k e, sv_entry (sv_of k e) = e.
+Proof. destruct k; reflexivity. Qed.
+
+Theorem src_goto_definition_exec_eq : forall M trees pos,
+  src_goto_definition_exec (mkIdb M trees) pos = outcome_of_sres (goto_definition M (fst pos) (snd pos)).
+Proof.
+  intros M trees pos. unfold src_goto_definition_exec, goto_definition, db_index, index_symbol_map, sm_find_symbol_at. cbn [idb_sm].
+  destruct (find_symbol_at M (fst pos) (snd pos)) as [[[s e]|]|err]; try reflexivity.
+  cbn. unfold sv_define_loc. now rewrite sv_entry_of.
+Qed.
+
+Theorem src_references_exec_eq : forall M trees pos,
+  src_references_exec (mkIdb M trees) pos = outcome_of_sres (references M (fst pos) (snd pos)).
+Proof.
+  intros M trees pos. unfold src_references_exec, references, db_index, index_symbol_map, sm_find_symbol_at. cbn [idb_sm].
+  destruct (find_symbol_at M (fst pos) (snd pos)) as [[[s e]|]|err]; try reflexivity.
+  cbn. unfold sv_reference_locs. now rewrite sv_entry_of.
+Qed.
+
+(** ---- arena / payload coherence, all arenas ---- *)
+Definition tag_ok (k : sym_kind) (p : payload) : Prop :=
+  match k, p with
+  | KRecord, PRecord _ _ _ _ | KTemplateArg, PTemplateArg _ | KRecordField, PRecordField _ _ | KVariable, PVariable _
+  | KDefset, PDefset _ _ | KMulticlass, PMulticlass _ _ | KDefm, PDefm _ => True
+  | _, _ => False
+  end.
+Definition kinded (M : symbol_map) : Prop := forall k id e, get_entry M (k, id) = Some e -> tag_ok k (e_payload e).
+
+Lemma kinded_fields : forall M, kinded M -> fields_kinded M.
+Proof. intros M H id e He. specialize (H _ _ _ He). destruct (e_payload e); try contradiction. eauto. Qed.
+
+Lemma kinded_step : forall M o M', apply_op M o = SOk M' -> kinded M -> kinded M'.
+Proof.
+  intros M o M' H Hk k0 id e He. apply apply_op_spec in H. destruct H as (Ha & _ & _). unfold arenas_after in Ha.
+  destruct (op_alloc o) as [[[k e0] keyed]|] eqn:Eo.
+  - destruct Ha as (Hg & _). rewrite Hg in He. destruct (sid_eqb (k0, id) (k, next_id M k)) eqn:Q.
+    + injection He as <-. apply sid_eqb_eq in Q. injection Q as -> _.
+      destruct o; cbn [op_alloc] in Eo; try discriminate; injection Eo as <- <-; exact I.
+    + eauto.
+  - destruct (op_update M o) as [[t g]|] eqn:Eu.
+    + destruct Ha as (_ & Hg & _). rewrite Hg in He. destruct (sid_eqb t (k0, id)); [|eauto].
+      destruct (get_entry M (k0, id)) as [e1|] eqn:H1; [|discriminate]. cbn [option_map] in He. injection He as <-.
+      pose proof (Hk _ _ _ H1) as Ht.
+      destruct o; cbn [op_update] in Eu; try discriminate;
+        try (destruct (cur_target M _); [|discriminate]; cbn [option_map] in Eu; injection Eu as _ <-);
+        try (injection Eu as _ <-); unfold upd_payload, push_ref; cbn [e_payload]; try exact Ht;
+        destruct k0; destruct (e_payload e1); try contradiction; exact I.
+    + rewrite (same_arenas_get_entry _ _ (k0, id) Ha) in He. eauto.
+Qed.
+
+Theorem kinded_run_ops_all : forall ops M, run_ops ops = SOk M -> kinded M.
+Proof.
+  intros ops. unfold run_ops.
+  assert (forall l M0 M, kinded M0 -> run_ops_from M0 l = SOk M -> kinded M) as H.
+  { induction l as [|o r IH]; intros M0 M H0 H; cbn [run_ops_from] in H; [replace M with M0 by congruence; exact H0|].
+    destruct (apply_op M0 o) as [M1|err] eqn:Ea; [|discriminate]. cbn [sbind] in H.
+    eapply IH; [|exact H]. eapply kinded_step; eauto. }
+  intros M HM. apply (H ops sm_empty M); [|exact HM].
+  intros k id e He. unfold get_entry, nth_N, sm_empty in He. destruct k; cbn in He; destruct (N.to_nat id); discriminate.
+Qed.
+
+(** ---- extract_symbol_signature ---- *)
+Lemma st_join_eq : forall sep l, st_join sep l = join_with sep l.
+Proof. intros sep. induction l as [|x r IH]; [reflexivity|]. destruct r as [|y r']; [reflexivity|]. cbn [st_join join_with] in *. now rewrite IH. Qed.
+
+Lemma find_symbol_at_entry : forall M f p s e, find_symbol_at M f p = SOk (Some (s, e)) -> get_entry M s = Some e.
+Proof.
+  intros M f p s e H. unfold find_symbol_at in H. destruct (find_symbol_id_at M f p) as [s0|]; [|discriminate].
+  unfold symbol in H. destruct (get_entry M s0) as [e0|] eqn:Hg; [|discriminate]. cbn [sbind] in H. injection H as <- <-. exact Hg.
+Qed.
+
+Theorem src_extract_symbol_signature_eq : forall M pos, kinded M ->
+  src_extract_symbol_signature M pos = outcome_of_sres (extract_symbol_signature M (fst pos) (snd pos)).
+Proof.
+  intros M pos Hk. unfold src_extract_symbol_signature, extract_symbol_signature, sm_find_symbol_at.
+  destruct (find_symbol_at M (fst pos) (snd pos)) as [[[[k id] e]|]|err] eqn:Hf; try reflexivity.
+  pose proof (Hk _ _ _ (find_symbol_at_entry _ _ _ _ _ Hf)) as Ht.
+  cbn [sbind option_map hsres hbind htry fst snd]. unfold sv_define_loc. rewrite sv_entry_of. unfold signature. cbn [fst].
+  destruct k; destruct (e_payload e) as [rk targs fields ps|ty|ty pr|ty|ty ds|ts ps|ps] eqn:Hp; try contradiction; cbn [sv_of].
+  - (* record *)
+    unfold en_rkind. rewrite Hp. cbn [p_record_kind]. destruct rk; cbn [opt_rk_eqb].
+    + unfold en_iter_template_arg, sm_template_arg, template_arg. rewrite Hp. cbn [p_targs].
+      rewrite hmapM_lookup, (smap_post (fun id => symbol M (KTemplateArg, id))).
+      destruct (smap (fun id => symbol M (KTemplateArg, id)) (amap_values targs)) as [es|err]; [|reflexivity].
+      cbn [hsres hbind sbind hrun outcome_of_sres]. rewrite st_join_eq. unfold en_typ, en_name.
+      match goal with |- context [if st_is_empty ?x then _ else _] => remember x as ta eqn:Eta end.
+      match goal with |- context [is_nil ?y] => replace y with ta by (subst ta; reflexivity) end.
+      destruct ta; reflexivity.
+    + reflexivity.
+  - unfold en_typ. rewrite Hp. reflexivity.
+  - unfold en_field_parent, en_typ, sm_record. rewrite Hp. cbn [p_field_parent p_typ].
+    destruct (record M pr) as [pe|err]; reflexivity.
+  - unfold en_typ. rewrite Hp. reflexivity.
+  - unfold en_typ. rewrite Hp. reflexivity.
+  - reflexivity.
+  - reflexivity.
+Qed.
+
+(** ---- hover::exec ---- *)
+Theorem src_hover_exec_eq : forall M trees pos, kinded M ->
+  (forall sig loc, extract_symbol_signature M (fst pos) (snd pos) = SOk (Some (sig, loc)) ->
+     covering_element (trees (fr_file loc)) (fr_lo loc) (fr_hi loc) <> None) ->
+  src_hover_exec (mkIdb M trees) pos =
+    match hover M (fun f => Some (trees f)) (fst pos) (snd pos) with
+    | SOk None => Done None
+    | SOk (Some (sig, DocSome t)) => Done (Some (sig, Some t))
+    | SOk (Some (sig, DocNone)) => Done (Some (sig, None))
+    | SOk (Some (sig, DocOutOfFuel)) => OutOfFuel
+    | SErr _ => Panicked
+    end.
+Proof.
+  intros M trees pos Hk Hcov. unfold src_hover_exec, hover, db_index, index_symbol_map, idb_parse. cbn [idb_sm idb_trees].
+  rewrite (src_extract_symbol_signature_eq M pos Hk).
+  destruct (extract_symbol_signature M (fst pos) (snd pos)) as [[[sig loc]|]|err]; try reflexivity.
+  specialize (Hcov sig loc eq_refl). cbn [outcome_of_sres hcall hbind htry sbind fst snd].
+  change (rw_syntax_node (trees (fr_file loc))) with (cur_root (trees (fr_file loc))).
+  change (fr_range loc) with (fr_lo loc, fr_hi loc). rewrite src_extract_doc_comments_eq.
+  destruct (covering_element (trees (fr_file loc)) (fr_lo loc) (fr_hi loc)); [|congruence].
+  destruct (extract_doc_comments (trees (fr_file loc)) (fr_lo loc) (fr_hi loc)); reflexivity.
+Qed.
+
+Theorem c19_hover_model_is_source :
+  (forall M pos, kinded M ->
+     src_extract_symbol_signature M pos = outcome_of_sres (extract_symbol_signature M (fst pos) (snd pos))) /\
+  (forall M trees pos, kinded M ->
+     (forall sig loc, extract_symbol_signature M (fst pos) (snd pos) = SOk (Some (sig, loc)) ->
+        covering_element (trees (fr_file loc)) (fr_lo loc) (fr_hi loc) <> None) ->
+     src_hover_exec (mkIdb M trees) pos =
+       match hover M (fun f => Some (trees f)) (fst pos) (snd pos) with
+       | SOk None => Done None
+       | SOk (Some (sig, DocSome t)) => Done (Some (sig, Some t))
+       | SOk (Some (sig, DocNone)) => Done (Some (sig, None))
+       | SOk (Some (sig, DocOutOfFuel)) => OutOfFuel
+       | SErr _ => Panicked
+       end) /\
+  (forall ops M, run_ops ops = SOk M -> kinded M).
+Proof. split; [exact src_extract_symbol_signature_eq|]. split; [exact src_hover_exec_eq|exact kinded_run_ops_all]. Qed.
